@@ -1,6 +1,8 @@
 package props
 
 import (
+	"go/token"
+	"go/types"
 	"strings"
 
 	"golang.org/x/tools/go/ssa"
@@ -89,4 +91,118 @@ func checkRemoveID(p *load.Program, r *kit.Report, rule string) {
 	}
 	r.Check(bad == "", rule, "removeID/removes-exactly-one", pos, "len(result) = len(ids)-1 on a match, the list itself otherwise", bad)
 	_ = load.RootPkg
+}
+
+// checkSentIsFrozen: sendMessage only puts the message pointer on the outgoing channel; the sender
+// goroutine serialises it later. A message that was handed to sendMessage must therefore not be
+// written again by the function that built it (reusing the "full" getdata for the overflow batch
+// drops the first batch and requests the overflow twice) — a fresh message is started instead.
+func checkSentIsFrozen(p *load.Program, r *kit.Report, rule string) {
+	k := newKeyer()
+	n := 0
+	mutator := func(name string) bool {
+		for _, pre := range []string{"Add", "Set", "Clear", "BtcDecode", "Deserialize", "Reset"} {
+			if strings.HasPrefix(name, pre) {
+				return true
+			}
+		}
+		return false
+	}
+	for _, f := range pkgFuncs(p, R) {
+		for _, c := range kit.CallsTo(f, R+".BitcoinNode.sendMessage") {
+			args := c.Common().Args
+			if len(args) < 3 {
+				continue
+			}
+			mi, ok := args[2].(*ssa.MakeInterface)
+			if !ok {
+				continue
+			}
+			msg := kit.Strip(mi.X)
+			if _, isPtr := msg.Type().Underlying().(*types.Pointer); !isPtr {
+				continue
+			}
+			n++
+			name := kit.ShortID(kit.FuncID(f))
+			key := k.key(name + "/sent:" + strings.TrimPrefix(msg.Type().String(), "*github.com/tokenized/pkg/"))
+			def, _ := msg.(ssa.Instruction)
+			rr := kit.Reach(f, kit.After(c.(ssa.Instruction)), kit.Opts{StopAt: func(in ssa.Instruction) bool { return def != nil && in == def }})
+			bad := ""
+			for _, w := range kit.DirectWrites(f) {
+				if w.Field == nil || !rr.Has(w.Instr) || w.Instr == def {
+					continue
+				}
+				if w.Base == msg {
+					bad = "field " + w.Field.Name() + " of the message is written at " + posOf(p, w.Instr) + " after it was queued with sendMessage (" + rr.PathTo(w.Instr, p.Pos) + "): the queued message shares the struct — what is serialised later is the overwritten content"
+				}
+			}
+			kit.AllInstrs(f, func(in ssa.Instruction) {
+				cc, ok := in.(ssa.CallInstruction)
+				if !ok || !rr.Has(in) || in == def || in == c.(ssa.Instruction) {
+					return
+				}
+				g := kit.StaticCallee(cc)
+				if g == nil || len(cc.Common().Args) == 0 || kit.Strip(cc.Common().Args[0]) != msg {
+					return
+				}
+				if g.Signature.Recv() != nil && mutator(g.Name()) {
+					bad = kit.ShortID(kit.CallID(cc)) + " is called at " + posOf(p, in) + " on a message that was already queued with sendMessage (" + rr.PathTo(in, p.Pos) + ")"
+				}
+			})
+			r.Check(bad == "", rule, key, posOf(p, c), "the message is not written after it was queued", bad)
+		}
+	}
+	if n < 8 {
+		r.Unknown(rule, "sendMessage/sites", "-", "expected at least 8 sendMessage calls with a message built in the caller, found %d", n)
+	}
+}
+
+// checkRequestProvenance: the txid batch the manager hands to a node is the batch GetTxRequests
+// computed (and booked) for that very node in the same iteration of the retry loop.
+func checkRequestProvenance(p *load.Program, r *kit.Report, rule string) {
+	f := fn(p, r, rule, R, "NodeManager.RequestTxs")
+	if f == nil {
+		return
+	}
+	idF := p.Field(R, "BitcoinNode", "id")
+	reqs := kit.CallsTo(f, R+".BitcoinNode.RequestTxs")
+	if len(reqs) == 0 {
+		r.Bad(rule, "NodeManager.RequestTxs/batch", posOf(p, f.Blocks[0].Instrs[0]), "no node.RequestTxs call")
+		return
+	}
+	k := newKeyer()
+	for _, c := range reqs {
+		args := c.Common().Args
+		node := kit.Strip(args[0])
+		bad := ""
+		v := kit.Provenance(args[len(args)-1])
+		e, ok := v.(*ssa.Extract)
+		var get *ssa.Call
+		if ok && e.Index == 0 {
+			get, _ = e.Tuple.(*ssa.Call)
+		}
+		switch {
+		case get == nil || kit.CallID(get) != R+".TxManager.GetTxRequests":
+			if _, isPhi := v.(*ssa.Phi); isPhi {
+				bad = "the batch sent to this node can be one that GetTxRequests computed (and booked) for a node tried earlier: that node stays booked although nothing was asked of it, and this node is asked for txs it may never have announced, or again after its own request"
+			} else {
+				bad = "the batch sent is " + describe(v) + ", not the result of GetTxRequests for this node"
+			}
+		default:
+			idOK := false
+			for _, a := range get.Call.Args {
+				if u, ok := kit.Strip(a).(*ssa.UnOp); ok && u.Op == token.MUL {
+					if fa, ok := u.X.(*ssa.FieldAddr); ok {
+						if fl, base := kit.FieldOfAddr(fa); fl == idF && kit.Strip(base) == node {
+							idOK = true
+						}
+					}
+				}
+			}
+			if !idOK {
+				bad = "GetTxRequests was asked for a different node than the one the batch is sent to"
+			}
+		}
+		r.Check(bad == "", rule, k.key("NodeManager.RequestTxs/batch"), posOf(p, c), "node.RequestTxs(GetTxRequests(node.id, …)) — same node, same iteration", bad)
+	}
 }
